@@ -76,14 +76,18 @@ where
             std::thread::Builder::new()
                 .name("timeout".to_owned())
                 .spawn(move || loop {
-                    let mut market = s1.market.lock();
-                    let now = SystemTime::now();
-                    if closing_time < now {
-                        log::debug!("Reached timeout, triggering shutdown");
-                        market.open = false;
-                    }
-                    if !market.open {
-                        break;
+                    {
+                        // Only hold the lock while looking at the market: the workers need it
+                        // to fetch and share jobs while this thread sleeps.
+                        let mut market = s1.market.lock();
+                        let now = SystemTime::now();
+                        if closing_time < now {
+                            log::debug!("Reached timeout, triggering shutdown");
+                            market.open = false;
+                        }
+                        if !market.open {
+                            break;
+                        }
                     }
                     sleep(Duration::from_secs(1));
                 })
